@@ -406,6 +406,7 @@ def check_retyped(ctx, c):
 
     name = c["op"]
     op = getattr(ops, name)()
+    earlier = []
     for use, row in enumerate(c["rows"]):
         ctx.count("monitor:retyped")
         B = Builder()
@@ -426,23 +427,24 @@ def check_retyped(ctx, c):
         def bad(kind, exp, obs):
             ctx.disc(None, f"retyped-{kind}", [name, use], exp, obs, stratum="retyped", case=c)
 
-        got = sig_rows(op.outer_signature())
+        nop = d.hugr[n].op   # the operation the HUGR holds for this node (the caller's object may be a template)
+        got = sig_rows(nop.outer_signature())
         if got != want:
             bad("outer-signature", want, got)
-        if op.num_out != len(outs):
-            bad("num_out", len(outs), op.num_out)
+        if nop.num_out != len(outs):
+            bad("num_out", len(outs), nop.num_out)
         if d.hugr.num_in_ports(n) < len(ins) or d.hugr.num_out_ports(n) != len(outs):
             bad("port-counts", [len(ins), len(outs)], [d.hugr.num_in_ports(n), d.hugr.num_out_ports(n)])
         if len(list(n)) != len(outs):
             bad("handle-outputs", len(outs), len(list(n)))
         for i, t in enumerate(outs):
             try:
-                k = kind_repr(op.port_kind(OutPort(Node(0), i)))
+                k = kind_repr(nop.port_kind(OutPort(Node(0), i)))
             except Exception as e:  # noqa: BLE001
                 k = ["raised", type(e).__name__]
             if k != ["value", exp_t(t)]:
                 bad("port-kind", ["value", exp_t(t)], k)
-        j = op._to_serial(Node(0)).model_dump(mode="json")
+        j = nop._to_serial(Node(0)).model_dump(mode="json")
         sg = j["signature"]
         got_w = ([wire.strip_reqs(wire.canon(t)) for t in sg["input"]],
                  [wire.strip_reqs(wire.canon(t)) for t in sg["output"]])
@@ -450,6 +452,15 @@ def check_retyped(ctx, c):
         want_w = (exp_row(row), exp_row(list(reversed(row)))) if name == "CallIndirect" else want
         if got_w != want_w:
             bad("serialized-signature", want_w, got_w)
+        earlier.append((use, d, n, want, len(outs)))
+    # the nodes built by the earlier uses still carry the operation of THEIR use
+    for use, d, n, want, nout in earlier[:-1]:
+        ctx.count("monitor:retyped-earlier-node")
+        nop = d.hugr[n].op
+        got = sig_rows(nop.outer_signature())
+        if got != want or nop.num_out != nout or d.hugr.num_out_ports(n) != nout:
+            ctx.disc(None, "retyped-earlier-node-changed", [name, use], [want, nout],
+                     [got, nop.num_out, d.hugr.num_out_ports(n)], stratum="retyped", case=c)
 
 
 def check_program_ports(ctx, p):
